@@ -61,16 +61,22 @@ func (t *websocketTransport) Send(ctx context.Context, e envelope) error {
 		return err
 	}
 
+	// Close (from another goroutine) forgets the connection: keep hold of the one that was checked
+	conn := t.conn
+	if conn == nil {
+		return errors.New("transport is not open")
+	}
+
 	errChan := make(chan error)
 	go func() {
-		errChan <- t.conn.WriteJSON(e)
+		errChan <- conn.WriteJSON(e)
 	}()
 
 	select {
 	case <-ctx.Done():
 		// Effectively fails all pending write operations before returning.
 		// Note that this makes the encoder to be in a permanent error state.
-		_ = t.conn.SetWriteDeadline(time.Now())
+		_ = conn.SetWriteDeadline(time.Now())
 		<-errChan
 		return fmt.Errorf("ws transport: send: %w", ctx.Err())
 	case err := <-errChan:
@@ -90,11 +96,17 @@ func (t *websocketTransport) Receive(ctx context.Context) (envelope, error) {
 		return nil, err
 	}
 
+	// Close (from another goroutine) forgets the connection: keep hold of the one that was checked
+	conn := t.conn
+	if conn == nil {
+		return nil, errors.New("transport is not open")
+	}
+
 	rawChan := make(chan rawEnvelope)
 	errChan := make(chan error)
 	go func() {
 		var raw rawEnvelope
-		if err := t.conn.ReadJSON(&raw); err != nil {
+		if err := conn.ReadJSON(&raw); err != nil {
 			errChan <- err
 		} else {
 			rawChan <- raw
@@ -105,7 +117,7 @@ func (t *websocketTransport) Receive(ctx context.Context) (envelope, error) {
 	case <-ctx.Done():
 		// Effectively fails all pending read operations before returning.
 		// Note that this makes the decoder to be in a permanent error state.
-		_ = t.conn.SetReadDeadline(time.Now())
+		_ = conn.SetReadDeadline(time.Now())
 		// wait for the error of the envelope result (which will be discarded)
 		select {
 		case <-errChan:
